@@ -402,6 +402,16 @@ class ScriptRaise(Exception):
     pass
 
 
+class NotATimer:
+    """something with a cancel() method that is not a KGTimerHandler (e.g. a raw loop handle)"""
+
+    def cancel(self):
+        return 1
+
+
+NONHANDLERS = [0, "t0", NotATimer(), None]
+
+
 def impl_run(case):
     """Run one experiment on the real timer code.  -> (events, delegates, info)"""
     from klongpy.sys_fn_timer import eval_sys_fn_timer, eval_sys_fn_cancel_timer, KGTimerHandler
@@ -415,7 +425,7 @@ def impl_run(case):
     st = {"nver": 1}
 
     def timerc(j):
-        x = th[j] if j < len(th) else 0
+        x = th[j] if j < len(th) else NONHANDLERS[j % len(NONHANDLERS)]
         r = eval_sys_fn_cancel_timer(x)
         trace.append([3, j, units(loop.now), int(r)])
 
@@ -546,7 +556,7 @@ def random_case(rng, named, big=False):
             elif p < 0.70:
                 a, g = 1, i
             elif p < 0.82:
-                a, g = 1, rng.randint(0, nt)
+                a, g = 1, rng.randint(0, nt + 3)
             elif p < 0.92:
                 a, g = (2, rng.randint(0, nt - 1)) if named else (0, 0)
             else:
@@ -561,7 +571,7 @@ def random_case(rng, named, big=False):
         if named and rng.random() < 0.4:
             exts.append((t, 1, rng.randint(0, nt - 1)))
         else:
-            exts.append((t, 0, rng.randint(0, nt)))
+            exts.append((t, 0, rng.randint(0, nt + 3)))
     lats = []
     for _ in range(rng.randint(0, 12)):
         p = rng.random()
@@ -593,13 +603,64 @@ WITNESS = {
 
 
 def build_cases(chk, rng):
-    cases = list(WITNESS.values())
-    cases += list(single_cases(chk.tier, False))
-    cases += list(single_cases(chk.tier, True))
-    n_py, n_kl = (4000, 1500) if chk.tier == "quick" else (120000, 30000)
-    cases += [random_case(rng, False) for _ in range(n_py)]
-    cases += [random_case(rng, True) for _ in range(n_kl)]
-    return cases
+    """generator of all cases of a run"""
+    for c in WITNESS.values():
+        yield c
+    for c in single_cases(chk.tier, False):
+        yield c
+    for c in single_cases(chk.tier, True):
+        yield c
+    n_py, n_kl = (14000, 4000) if chk.tier == "quick" else (500000, 100000)
+    for _ in range(n_py):
+        yield random_case(rng, False)
+    for _ in range(n_kl):
+        yield random_case(rng, True)
+
+
+def batches(it, n):
+    buf = []
+    for x in it:
+        buf.append(x)
+        if len(buf) >= n:
+            yield buf
+            buf = []
+    if buf:
+        yield buf
+
+
+# the argument checks of eval_sys_fn_timer against Model.timer_validate
+def check_validate(chk):
+    from klongpy.core import KGCall, KGSym
+    from klongpy.sys_fn_timer import eval_sys_fn_timer, KGTimerHandler
+    klong = _interp()
+    klong('vf::{1}')
+    fn = klong._context[KGSym('vf')]
+    zs = [(0, KGCall(fn.a, [], 0)), (1, fn), (2, (lambda: 0)), (3, 5), (3, "cb"), (3, None)]
+    codes = {"x must be a non-negative integer": 0, "z must be a function (not a function call)": 1, "z must be a function": 2}
+    reqs, got, what = [], [], []
+    for y in (-3, -1, 0, 1, 2, 5, 7):
+        for zk, z in zs:
+            klong['.system'] = {'klongloop': VLoop(0.0, 2.0 ** -10, False, [])}
+            try:
+                r = eval_sys_fn_timer(klong, "v", y, z)
+                g = 3 if isinstance(r, KGTimerHandler) and r.interval == y else codes.get(r, -1) if isinstance(r, str) else -1
+            except Exception as e:
+                g = -2
+            reqs.append(sx(["validate", y, zk]))
+            got.append(g)
+            what.append({"y": y, "z": type(z).__name__})
+    bad = None
+    for m, g, w in zip(chk.run_model(reqs), got, what):
+        chk.count("evaluations")
+        chk.count("validate_cases")
+        if m != g and bad is None:
+            bad = dict(w, model=m, impl=g)
+    # y is truncated by int() before the check
+    klong['.system'] = {'klongloop': VLoop(0.0, 2.0 ** -10, False, [])}
+    r = eval_sys_fn_timer(klong, "v", 2.75, (lambda: 0))
+    if not (isinstance(r, KGTimerHandler) and r.interval == 2) and bad is None:
+        bad = {"y": 2.75, "impl": repr(r), "model": "interval 2"}
+    return bad
 
 
 # =============================================================================== evaluation
@@ -681,17 +742,17 @@ def run(tier, replay=None):
     if flags != (src["guard"], src["clear"], src["mono"], src["resolve"]):
         raise RuntimeError("extracted model was not built from the current Generated.v")
 
-    cases = build_cases(chk, rng)
-    results = evaluate(chk, cases, flags)
     bad_prop = None
     bad_corr = None
     seen = set()
     n_early = 0
-    for r in results:
+    bad_val = check_validate(chk)
+    for cases in batches(build_cases(chk, rng), 20000):
+      for r in evaluate(chk, cases, flags):
         c = r["case"]
         chk.count("evaluations")
         chk.count("cases_" + c["kind"].split("-")[0] + "_" + c["mode"])
-        key = json.dumps(r["trace"])
+        key = hash(json.dumps(r["trace"]))
         if len(r["trace"]) > 2 and key not in seen:
             seen.add(key)
             chk.count("distinct_nontrivial")
@@ -704,8 +765,12 @@ def run(tier, replay=None):
         if early_only(r):
             n_early += 1
             chk.count("early_dispatch_histories")
-            if not chk.finding("C15-early-within-resolution", "a callback started before its interval boundary", replay_obj(r, "strict")):
-                pass
+            if n_early == 1:
+                # the strict reading of "never before an interval boundary" fails only through ticks that start
+                # less than one clock resolution early (Proofs.strict_accepts_on_time): the one known class
+                chk.finding("C15-early-within-resolution",
+                            "a callback started before its interval boundary (by less than the loop's clock resolution)",
+                            replay_obj(r, "strict"))
         m = r["model"]
         ok = m[0] == "ok" and m[1] == r["trace"] and m[2] == r["deleg"]
         if not ok and bad_corr is None:
@@ -715,12 +780,14 @@ def run(tier, replay=None):
                         "history": r["trace"][:10]}, limit=3)
         elif c["kind"].startswith("single"):
             chk.sample({"timers": c["timers"], "lats": c["lats"][:2], "mode": c["mode"], "history": r["trace"][:10]}, limit=5)
+      if bad_prop is not None:
+        break
 
     if bad_prop is not None:
         ro = replay_obj(bad_prop, "oracle")
         chk.violation("timer history rejected by the property checker: %s" % (ro["first_rejected_event"] or "inexact clock value"), ro)
     else:
-        need_search = bad_corr is not None or not proof["ok"]
+        need_search = bad_corr is not None or bad_val is not None or not proof["ok"]
         found = None
         if need_search:
             # wider sweep, property oracle only
@@ -735,6 +802,9 @@ def run(tier, replay=None):
         if found is not None:
             ro = replay_obj(found, "oracle")
             chk.violation("timer history rejected by the property checker: %s" % (ro["first_rejected_event"] or "inexact clock value"), ro)
+        elif bad_val is not None:
+            chk.violation("argument checks of eval_sys_fn_timer differ from Model.timer_validate; no history rejected by the property checker in %d cases"
+                          % chk.counters.get("evaluations", 0), {"broken": "correspondence C15/Model.v timer_validate", "detail": bad_val}, no_input=True)
         elif bad_corr is not None:
             m = bad_corr["model"]
             chk.violation("correspondence between klongpy and the Coq model broke; no history rejected by the property checker in %d cases"
